@@ -96,6 +96,18 @@ structure ExtAttr where
   critical : Bool
   deriving DecidableEq, Repr, FromJson, ToJson
 
+/-- one entry of the statement's `trustStores` list, in the order of the list (how the abstract
+`trust` situation is concretised; the scheme of the signature needs `ca` stores) -/
+inductive StoreKind
+  | anchor            -- a `ca` store that loads and holds the trust anchor
+  | other             -- a `ca` store that loads and holds only an unrelated certificate
+  | empty             -- a `ca` store that loads and holds nothing (only a fake store can do that)
+  | broken            -- a `ca` store that cannot be loaded (not provisioned / symlink / junk file / error)
+  | dup               -- the first `ca` entry of the list once more
+  | otherType         -- a `signingAuthority` store that loads and holds the anchor: not to be consulted
+  | otherTypeBroken   -- a `signingAuthority` store that cannot be loaded: not to be consulted
+  deriving DecidableEq, Repr, FromJson, ToJson
+
 structure Input where
   level : String
   override : List (String × String)
@@ -117,6 +129,11 @@ structure Input where
   processed : List String            -- attribute keys the plugin reports as processed
   verdictIdentity : Verdict
   verdictRevocation : Verdict
+  -- how the scenario is concretised (the model does not look at these: `concretisation_irrelevant`)
+  stores : List StoreKind := []      -- the statement's trust store list ([] = one store, chosen by `trust`)
+  storeImpl : String := ""           -- "fake" (in-memory) | "fs" (truststore.NewX509TrustStore over a directory)
+  ctor : String := ""                -- New | NewWithOptions | NewVerifierWithOptions | NewFromConfig | NewOCIVerifierFromConfig
+  revSupply : String := ""           -- validator | client | both (the client contradicts the validator) | none
   deriving Repr, FromJson, ToJson
 
 structure Result where
@@ -292,6 +309,33 @@ def process (i : Input) (enf : Enf) : Obs :=
   match processE i enf with
   | .ok s => s.obs true
   | .error s => s.obs false
+
+/-! ### concretisation: which abstract situation a concrete configuration realises -/
+
+/-- the `trust` situation a trust store list realises: one unloadable store of the needed type
+fails the whole load wherever it stands; stores of another type do not count at all -/
+def trustOf (l : List StoreKind) : Trust :=
+  if l.contains .broken then .storeError
+  else if l.contains .anchor then .found
+  else if l.contains .other then .notFound
+  else .emptyStores
+
+/-- whose verdict is the native revocation verdict: the validator when one is supplied, else the
+deprecated client, else the default validator (which has no objection to the certificates of
+the scenario: they name no OCSP responder and no CRL) -/
+def revocationSource (supply : String) : String :=
+  if supply == "validator" || supply == "both" then "validator"
+  else if supply == "client" then "client" else "default"
+
+/-- the concrete configuration realises the abstract scenario (the generator emits only such) -/
+def concretisationOK (i : Input) : Bool :=
+  (i.stores.isEmpty || (trustOf i.stores == i.trust &&
+      i.stores.any (fun k => k == .anchor || k == .other || k == .empty || k == .broken))) &&
+  (revocationSource i.revSupply != "default" || i.revocation == .ok) &&
+  (!(i.ctor == "New" || i.ctor == "NewFromConfig" || i.ctor == "NewOCIVerifierFromConfig") ||
+      i.revSupply == "none" || i.revSupply == "") &&
+  (!(i.ctor == "NewFromConfig" || i.ctor == "NewOCIVerifierFromConfig") ||
+      (i.storeImpl == "fs" && i.pluginAttr != .named))
 
 /-- `verifier.Verify` up to the end of `processSignature`, for a signature that passes
 integrity under the statement's level (the policy document is valid, so `effective` succeeds;
